@@ -186,6 +186,17 @@ def check_proxy(res, T, cname, via_file=False, full=True, history="plain"):
     mm.user_defined_controllers = 1
     mm.mappings.values[0] = mm.Mapping((1, sc.number - 1))
     mm.update_user_defined_controllers()
+    if history == "nested":
+        # macro controls handed up one level: an OUTER MetaModule exposes the user-defined controller of the MetaModule it embeds;
+        # the outer slot encodes like the controller it finally stands for
+        shell = api.Project()
+        shell.attach_module(mm)
+        outer = api.m.MetaModule(project=shell)
+        outer.user_defined_controllers = 1
+        outer.mappings.values[0] = outer.Mapping((mm.index, list(mm.controllers).index("user_defined_1")))
+        outer.update_user_defined_controllers()
+        mm = outer
+        res.count("proxy_nested_histories")
     if via_file:
         mm = mm.clone()  # the reader resolves the mapped value types again
         m = mm.project.modules[1]
@@ -249,6 +260,8 @@ def _check_proxy_domain(res, mm, sc, T, cname, unit, via_file, full, history):
         sample_vals.append(dflt)                 # the value the TARGET starts out with is a value like any other for the slot
         res.count("proxy_file_checks_at_target_default")
     target = mm.project.modules[1]
+    if history == "nested":
+        target = target.project.modules[1]
     holder = None
     for ctx in ("synth", "project"):
         if ctx == "project":
@@ -568,6 +581,86 @@ def sampler_record_histories(res, tier):
                     break
 
 
+def subclassed_ranges(res):
+    """An application module type whose added controllers use its OWN refinements of the library's range kinds (a Range in
+    steps of two, a CompactRange for semitones, a NoOffsetRange): such a controller encodes like the kind it refines - stored
+    form and pattern column, on the module and through a MetaModule slot mapped onto it."""
+    import rv.api as api
+    from rv import controller as rvc
+    from rv.errors import RangeValidationError
+    from rv.modules import MODULE_CLASSES
+    originals = dict(MODULE_CLASSES)
+
+    class EvenRange(rvc.Range):
+        def validate(self, value):
+            super().validate(value)
+            if value % 2:
+                raise RangeValidationError(value, self.min, self.max)
+
+    class Semitones(rvc.CompactRange):
+        pass
+
+    kinds = [("even", EvenRange, -64, 64, 2, "range"), ("semitones", Semitones, -24, 24, 1, "compact"), ("plain-sub", type("Plain", (rvc.Range,), {}), 0, 1000, 1, "range"),
+             ("positive-even", EvenRange, 10, 50, 2, "range")]
+    if hasattr(rvc, "NoOffsetRange"):
+        kinds.append(("no-offset", type("Signed", (rvc.NoOffsetRange,), {}), -100, 100, 1, "no_offset"))
+    try:
+        ns = {"__module__": api.m.Amplifier.__module__, "__doc__": api.m.Amplifier.__doc__}
+        for nm, cls_, lo, hi, _step, _k in kinds:
+            ns["rvmon_" + nm.replace("-", "_")] = rvc.Controller(cls_(lo, hi), lo if lo > 0 else 0)
+        try:
+            Step = type("Amplifier", (api.m.Amplifier,), ns)
+        except Exception as e:
+            res.count("range_subclass_module_refused")
+            res.hist("range_subclass_module_refused_why", type(e).__name__)
+            return
+        for where in ("module", "cloned", "through-metamodule"):
+            mod = Step()
+            if where == "cloned":
+                mod = mod.clone()
+                if type(mod) is not Step:
+                    res.count("range_subclass_clone_is_stock_class")
+                    continue
+            for nm, cls_, lo, hi, step, kind in kinds:
+                name = "rvmon_" + nm.replace("-", "_")
+                ctl = type(mod).controllers[name]
+                owner, cname = mod, name
+                if where == "through-metamodule":
+                    inner = api.Project()
+                    inner.attach_module(mod) if mod.parent is None else None
+                    mm = api.m.MetaModule(project=mod.parent)
+                    mm.user_defined_controllers = 1
+                    mm.mappings.values[0] = mm.Mapping((mod.index, list(type(mod).controllers).index(name)))
+                    mm.update_user_defined_controllers()
+                    owner, cname, ctl = mm, "user_defined_1", type(mm).controllers["user_defined_1"]
+                case = {"family": "subclassed-ranges", "kind": nm, "where": where}
+                res.case(("subclassed-ranges", nm, where))
+                prev = None
+                for v in range(lo, hi + 1, step):
+                    res.count("subclassed_range_values")
+                    want_raw = v if kind == "no_offset" else (v - lo if lo < 0 else v)
+                    want_pat = (v - lo) if kind == "compact" else int((v - lo) / ((hi - lo) / 32768))
+                    try:
+                        owner.set_raw(cname, want_raw)
+                        back, raw, pat = getattr(owner, cname), owner.get_raw(cname), ctl.pattern_value(owner, v)
+                    except Exception as e:
+                        res.violation(f"C10:subclassed-range-raises:{nm}:{workload_exc(e)}", f"{nm} ({where}): value {v}: {e!r}", case)
+                        break
+                    if back != v or raw != want_raw or pat != want_pat or (prev is not None and pat <= prev and kind != "range"):
+                        res.violation(f"C10:subclassed-range:{kind}:{where}", f"controller with a refined {kind} range {lo}..{hi} ({nm}, {where}): value {v}: stored form {want_raw} reads {back}, "
+                                                                             f"re-encodes to {raw}; pattern column {pat:#x}, the {kind} rule gives {want_pat:#x}", case)
+                        break
+                    prev = pat
+    finally:
+        MODULE_CLASSES.clear()
+        MODULE_CLASSES.update(originals)
+
+
+def workload_exc(e):
+    from .. import workload
+    return workload.exc_key(e)
+
+
 def run_shard(spec_, res):
     if spec_.get("part") == "soak":
         from .. import soak
@@ -582,6 +675,7 @@ def run_shard(spec_, res):
         embedded_edits(res, spec_["tier"])
     if spec_["shard"] == 3:
         sampler_record_histories(res, spec_["tier"])
+        subclassed_ranges(res)
     for T, cname, unit in spec_["tasks"]:
         check_controller(res, T, cname, unit)
         if spec_["tier"] == "thorough" and T != "Output":
@@ -592,6 +686,7 @@ def run_shard(spec_, res):
             for via_file in (False, True):
                 check_proxy(res, T, cname, via_file=via_file, full=spec_["tier"] == "thorough")
                 check_proxy(res, T, cname, via_file=via_file, full=False, history="recount")
+                check_proxy(res, T, cname, via_file=via_file, full=False, history="nested")
                 if spec.load()[T].ctl(cname).kind == "dependent":
                     check_proxy(res, T, cname, via_file=via_file, full=False, history="units")
     if spec_["shard"] == 0:
